@@ -2,6 +2,7 @@ package roverif
 
 import (
 	"fmt"
+	"rosim/simrt"
 
 	"github.com/samber/ro"
 )
@@ -323,17 +324,30 @@ func runCut(e *Env, prop string) {
 		return
 	}
 	e.Probe("closed")
-	// a library goroutine parked on a mutex at quiescence has deadlocked (nobody is left to release it); what
-	// it was about to release stays unreleased as a consequence: reported as the deadlock it is
-	for _, a := range e.K.Actors() {
-		if a.Lib && !a.Done() && a.Blocked() && a.PendingKind().String() == "lock" {
-			e.Violate(prop, "goroutine-deadlocked-on-lock", fmt.Sprintf("library goroutine started at %s is blocked on a lock at quiescence, the subscription being closed (trace %s)", a.Site, rec.Trace()))
-			return
-		}
-	}
 	// closed and Subscribe returned: at this quiescent point every source must have been released
+	lockParked := func() *simrt.Actor {
+		for _, a := range e.K.Actors() {
+			if a.Lib && !a.Done() && a.Blocked() && a.PendingKind().String() == "lock" {
+				return a
+			}
+		}
+		return nil
+	}
 	for _, s := range srcs {
 		if s.Live != 0 {
+			if a := lockParked(); a != nil {
+				// a library goroutine is parked on a mutex: if it still is once every armed timer has fired,
+				// it has deadlocked (nobody is left to release the lock) and what it was about to release stays
+				// unreleased as a consequence: reported as the deadlock it is
+				e.SettleFor(2000 * Unit)
+				if e.K.Capped() {
+					return
+				}
+				if b := lockParked(); b != nil {
+					e.Violate(prop, "goroutine-deadlocked-on-lock", fmt.Sprintf("library goroutine started at %s is still blocked on a lock after the subscription closed and every timer fired; source %d is not released (trace %s)", b.Site, s.ID, rec.Trace()))
+					return
+				}
+			}
 			e.Violate(prop, "source-not-released", fmt.Sprintf("subscription closed and Subscribe returned, but source %d still has %d live subscription(s) (subs=%d teardowns=%d) trace=%s", s.ID, s.Live, s.Subs, s.Teardowns, rec.Trace()))
 		}
 	}
